@@ -50,3 +50,18 @@ PROPS["C12"] = {
         "string comparison (byte-wise Ord on str) is a total order: the String arms of the leaves are covered only through this assumption (Kani harness for strings not built)",
     ],
 }
+
+PROPS["C07"] = {
+    "level": "proof",
+    "technique": "Verus contracts on the extracted registration / deletion / lookup code of both metadata backends: bucket-index representation invariant preserved by every transformer, lookup result equals the property's answer set (cover lemma over monotone hour buckets), with map / sort / retain combinators as assumed shims",
+    "verus": ["c07_local.rs.in", "c07_s3.rs.in"],
+    "explanation": "",
+    "assumptions": [
+        "std map semantics of HashMap/DashMap/BTreeMap/HashSet get/insert/remove/range as stated in the shims of prelude_meta.inc",
+        "Vec::retain keeps exactly the elements on which the (lifted, verified) closure returns true; sort_by_key is a permutation sorted by the key",
+        "strings are abstracted to their identity (only equality / copying of paths is used in these units)",
+        "object-store backend: the client's 60 s catalog cache equals the stored object (operations issued through the same client); conditional PUT is atomic (ghost store contract)",
+        "chunks are registered under their own path (metadata.path == path) — checked at the ingester call site in C06",
+        "an interval with min > max is empty (never returned)",
+    ],
+}
